@@ -1060,9 +1060,7 @@ impl DdlExecutor {
 
             let positions: Vec<crate::tree::accessor::BtreePagePosition> = table_btree
                 .iter_forward()?
-                .filter(|p| p.is_ok())
-                .map(|f| f.unwrap())
-                .collect();
+                .collect::<Result<_, _>>()?;
 
             for pos in positions {
                 let row = table_btree.get_row_at(pos, table_schema, &snapshot)?;
